@@ -53,7 +53,8 @@ package bpv7
 
 // Input well-formedness of in-memory bundles: block values are non-nil and a block whose type code is registered with
 // the extension block manager has the registered Go type (true for parsed bundles and for blocks made by the constructors).
-// govc:spec blocksNonNil(b Bundle) bool = forall j int :: 0 <= j && j < len(b.CanonicalBlocks) ==> b.CanonicalBlocks[j].Value != nil && (b.CanonicalBlocks[j].Value.BlockTypeCode() == 7 ==> is(b.CanonicalBlocks[j].Value, *BundleAgeBlock)) && (b.CanonicalBlocks[j].Value.BlockTypeCode() == 1 ==> is(b.CanonicalBlocks[j].Value, *PayloadBlock)) && (b.CanonicalBlocks[j].Value.BlockTypeCode() == 10 ==> is(b.CanonicalBlocks[j].Value, *HopCountBlock)) && (b.CanonicalBlocks[j].Value.BlockTypeCode() == 6 ==> is(b.CanonicalBlocks[j].Value, *PreviousNodeBlock))
+// govc:spec cbsNonNil(cbs []CanonicalBlock) bool = forall j int :: 0 <= j && j < len(cbs) ==> cbs[j].Value != nil && (cbs[j].Value.BlockTypeCode() == 7 ==> is(cbs[j].Value, *BundleAgeBlock)) && (cbs[j].Value.BlockTypeCode() == 1 ==> is(cbs[j].Value, *PayloadBlock)) && (cbs[j].Value.BlockTypeCode() == 10 ==> is(cbs[j].Value, *HopCountBlock)) && (cbs[j].Value.BlockTypeCode() == 6 ==> is(cbs[j].Value, *PreviousNodeBlock))
+// govc:spec blocksNonNil(b Bundle) bool = cbsNonNil(b.CanonicalBlocks)
 
 // govc:func (*Bundle).ExtensionBlock property C02 C06
 //@ opt inline true
